@@ -17,18 +17,34 @@ open OPM.Tags OPM.Gen.TagSites
 
 /-! ## The source tables (regenerated from /repo on every run) -/
 
-/-- No Tag subclass assigns `self.value`, `self.simulated_value` or `self.simulated` outside `__init__` and
-    outside the four primitives of `Tag`: every other change goes through a primitive. -/
-theorem no_silent_assignments : ∀ a ∈ valueAssigns, a.kind = "init" ∨ a.kind = "primitive" := by
+/-- Nothing in openpectus/engine and openpectus/lang/exec assigns an attribute `value`, `simulated_value` or
+    `simulated` of a tag other than `Tag.__init__` of the subclasses and the primitives of `Tag` (which notify):
+    every assignment found by the scan — on `self` or on ANY other receiver (`tag.value = …`, `t.value = …`,
+    `setattr(x, "value", …)`) — is of kind init / primitive, sits in a class that is not a tag (`otherClass`), or is
+    the one audited non-tag receiver (`item.value += …`: a `StackItem` of the block-time stack). -/
+theorem no_silent_assignments :
+    ∀ a ∈ valueAssigns, a.kind = "init" ∨ a.kind = "primitive" ∨ a.kind = "otherClass" ∨
+      (a.kind = "foreign" ∧ (a.func, a.target) ∈ [("BlockTimeTag.on_tick", "item.value")]) := by
+  decide +kernel
+
+/-- The classes that are not tags but have such a field (their `self.<field>` assignments are not tag changes). -/
+theorem other_class_sites_pinned :
+    ((valueAssigns.filter (fun a => a.kind = "otherClass")).map (fun a => (a.cls, a.field))) =
+      [("TagValue", "value"), ("TagValue", "simulated"), ("StackItem", "value")] := by
+  decide +kernel
+
+/-- The only `setattr` with a computed attribute name forwards hardware methods in the recovery decorator. -/
+theorem dynamic_setattrs_pinned :
+    dynamicSetattrs.map (fun d => d.2.1) = ["ErrorRecoveryDecorator._setup_decorated_method_forwards"] := by
   decide +kernel
 
 /-- The primitives that write those fields are exactly the ones the model has an operation for. -/
 theorem primitives_pinned :
     ((valueAssigns.filter (fun a => a.kind = "primitive")).map (fun a => (a.func, a.field))) =
-      [("set_value", "value"),
-       ("simulate_value_and_unit", "simulated"), ("simulate_value_and_unit", "simulated_value"),
-       ("simulate_value", "simulated"), ("simulate_value", "simulated_value"),
-       ("stop_simulation", "simulated"), ("stop_simulation", "simulated_value")] := by
+      [("Tag.set_value", "value"),
+       ("Tag.simulate_value_and_unit", "simulated"), ("Tag.simulate_value_and_unit", "simulated_value"),
+       ("Tag.simulate_value", "simulated"), ("Tag.simulate_value", "simulated_value"),
+       ("Tag.stop_simulation", "simulated"), ("Tag.stop_simulation", "simulated_value")] := by
   decide +kernel
 
 /-- The clock tags (pre-repair: five silent assignments) are among the scanned classes. -/
